@@ -196,7 +196,20 @@ def part_offgroup(s):
             pre = "AS_point_0.w_perf."
         p.run_model()
         res[(visc, wave)] = {q: float(p[pre + q][0]) for q in ("CDv", "CDw", "CDi", "CD", "CL")}
+        if wave:
+            # the group's wave (and viscous) drag is the drag component's value AT THE SURFACE'S REPORTED LIFT COEFFICIENT (zero-alpha
+            # offset CL0 included) on the analysed lattice: the real chain VLMGeometry -> ViscousDrag / WaveDrag fed by the harness
+            mesh_a = m if s["group"] == "AeroPoint" else np.array(p["AS_point_0.coupled.w.def_mesh"])
+            q_ = drag_problem(mesh_a, s["sym"], with_viscous=visc, with_wave=True, CL0=0.05, CD0=0.003)
+            res[(visc, wave)]["chain"] = ev(q_, re=1.0e6, Mach_number=0.84, CL=res[(visc, wave)]["CL"], t_over_c=np.array(p[pre + "t_over_c"]).ravel())
     viol, val = [], 0
+    for (visc, wave), r in res.items():
+        if "chain" in r:
+            val += 2
+            cv, cw = r.pop("chain")
+            for nm, a, b in (("CDw", r["CDw"], cw), ("CDv", r["CDv"], cv)):
+                if not abs(a - b) <= 1e-9 * max(abs(b), 1e-6):
+                    viol.append(dict(sig=dict(oracle="group_drag_is_component_at_reported_CL", which=nm, group=s["group"]), msg="%s of the group (%.10e) differs from the drag component evaluated at the surface's reported CL = %.6f on the same lattice (%.10e); viscous %s" % (nm, a, r["CL"], b, visc), measure=float(abs(a - b))))
     for (visc, wave), r in res.items():
         val += 3
         if not visc and r["CDv"] != 0.0:
